@@ -26,8 +26,10 @@ structure Lim where
   maxPlausible : Int
   /-- last whole millisecond a `system_clock::time_point` can hold -/
   tpMax : Int
-  /-- sanity bound on the snapshot entry count -/
+  /-- capacity of the snapshot's entry-count field (`uint32_t count`): `compactLocked` refuses to write more entries -/
   snapCountMax : Nat
+  /-- `kMinSnapshotEntryBytes`: `load` refuses a count the rest of the snapshot file cannot hold at this many bytes per entry -/
+  snapMinEntry : Nat
 
 /-- `NO_EXPIRY_SENTINEL` = INT64_MIN -/
 def sentinel : Int := -9223372036854775808
@@ -42,7 +44,8 @@ def Lim.gen : Lim where
   magic := Gen.Kv.magicDefault
   maxPlausible := Gen.Kv.maxPlausibleEpochMs
   tpMax := Gen.Kv.timePointMaxMs
-  snapCountMax := Gen.Kv.snapCountMax
+  snapCountMax := Gen.Kv.snapCountFieldMax
+  snapMinEntry := Gen.Kv.snapMinEntryBytes
 
 /-- What the proofs need from the limits: everything the API admits is re-admitted by `load`. -/
 structure Lim.OK (l : Lim) : Prop where
@@ -58,6 +61,10 @@ structure Lim.OK (l : Lim) : Prop where
   /-- every plausible expiry is representable: `fromEpochMs` cannot overflow on a value `load` accepts -/
   rep : l.maxPlausible ≤ l.tpMax
   count : l.snapCountMax < 2 ^ 32
+  /-- the plausibility divisor of `load` is positive and not larger than the smallest entry of either snapshot version
+  (keyLen:4 + one key byte + valLen:4): a count `compactLocked` wrote is never refused -/
+  minEntryPos : 1 ≤ l.snapMinEntry
+  minEntry : l.snapMinEntry ≤ 4 + 1 + 4
 
 /-- op letters `'S' 'D' 'E' 'X'` -/
 def opS : UInt8 := 83
@@ -260,7 +267,7 @@ def loadSnap (l : Lim) (d : Bytes) : Except LoadErr LState :=
       | none => .error .badCount
       | some (c, d3) =>
         let count := leNat c
-        if count > l.snapCountMax then .error .countTooLarge else
+        if count > d3.length / l.snapMinEntry then .error .countTooLarge else   -- bound derived from the file size (FC11d)
         snapEntries l ver count d3 {}
 
 /-! ## expiry sweep -/
